@@ -6,7 +6,9 @@ META = {
     "structural": "Deductive (unbounded): simplifier.simplify_inv_subs is verified from its AST for chains of any length over an abstract monoid of parameter maps: the "
                   "conditional fold of the kept entries equals the composition of the original chain, only entries listed in all_dup (self-inverse by precondition) are "
                   "deleted, so 'nan' is never deleted, and the result is None exactly when nothing is kept; the three template families of get_all_dup are proved to be involutions, and a "
-                  "structural obligation on get_all_dup's AST shows that every entry it lists, for every max_param, is an instance of one of them (an entry of another shape, e.g. a 3-cycle, fails it).",
+                  "structural obligation on get_all_dup's AST shows that every entry it lists, for every max_param, is an instance of one of them (an entry of another shape, e.g. a 3-cycle, fails it). "
+                  "load_subs: the distribution of the file's rows (rank r receives rows LO(r)..LO(r+1)-1 in file order) and their collection (gather, flattening on the root, optional bcast: row LO(q)+c of the "
+                  "result is row c of rank q, on every rank with bcast_res, on rank 0 otherwise) are verified with the SPMD rule for every rank count; the per-entry parsing between the two is bounded only.",
     "text": "Bounded, on the real code. Round trip: every substitution template the simplifier can record for up to 4 parameters (all rows of the "
             "pairwise-combination table with both targets, the constant-absorption inverses for integers -3..3 and six other numbers, sign flips, "
             "reciprocals, swaps in both key orders, permutations, reorderings, and the 'nan' marker: 482 written strings, built with the writer's "
@@ -41,6 +43,27 @@ def check(run):
     from pyvc import templates
     tfailed = D.structural_generic(run, ["generation/simplifier.py"], templates.obligations, "pyvc.templates (AST analysis)",
                                    "every entry get_all_dup lists is an instance of one of the three templates proved self-inverse (for every max_param)")
+    # load_subs: distribution of the file's rows over the ranks and their collection, with the SPMD rule (contracts/c_spmd.py)
+    from contracts import c_spmd
+    lfailed = []
+    st_, f_, _e = D.verify_function(run, "generation/simplifier.py", "load_subs", c_spmd.load_subs_distribute_contract, timeout_ms=10000, tag="distribute",
+                                    note="region: reading and cutting the file on rank 0, scatter; rows opaque; np.array_split through its external contract (A-numpy, validated at run time)")
+    lfailed += f_
+    if st_ == "proved" and D.canary(run, "generation/simplifier.py", "load_subs", c_spmd.load_subs_distribute_contract) is False:
+        raise RuntimeError("canary verified: engine vacuous on the distribution region of load_subs")
+    for b in (True, False):
+        for root in (True, False):
+            st_, f_, _e = D.verify_function(run, "generation/simplifier.py", "load_subs", (lambda b=b, root=root: c_spmd.load_subs_collect_contract(b, root)), timeout_ms=10000,
+                                            tag="collect bcast_res=%s %s" % (b, "root" if root else "other ranks"),
+                                            note="region: gather, itertools.chain on the root, optional bcast; the per-entry parsing loop between the two regions is not under contract")
+            lfailed += f_
+    if D.canary(run, "generation/simplifier.py", "load_subs", (lambda: c_spmd.load_subs_collect_contract(True, True))) is False:
+        raise RuntimeError("canary verified: engine vacuous on the collection region of load_subs")
+    rsp = run.harness("rt_merge.py", {"mode": "array_split", "nmax": 48 if run.tier == "quick" else 200, "pmax": 20 if run.tier == "quick" else 40}, timeout=600)
+    run.add_bounded("np.array_split(arange(N), P) is the closed-form tiling (external contract used by the distribution region)", "numpy.array_split", "N <= 48 (200), P <= 20 (40)",
+                    rsp["cases"], rsp["distinct"], len(rsp["failures"]))
+    if rsp["failures"]:
+        raise CheckerError("A-numpy assumption of the load_subs contract fails: %s" % rsp["failures"][0])
     run.assume("lemma library (assumed): the fold of a filtered list equals the conditional fold of the list (fusion), uniqueness of the conditional fold",
                "parameter maps form a monoid under composition (associative, identity); strings are abstract tokens denoting maps",
                "precondition of simplify_inv_subs: every element of all_dup is self-inverse -- discharged for get_all_dup: structural obligation (every listed entry is an instance of a template) + three involution lemmas")
@@ -121,6 +144,9 @@ def check(run):
         from checks.C14 import report_unproved
         report_unproved(run, dfailed, False, "simplifier.simplify_inv_subs")
     D.report_structural(run, tfailed, "templates", "pyvc/templates.py")
+    if lfailed and not run.violations:
+        from checks.C14 import report_unproved
+        report_unproved(run, lfailed, False, "simplifier.load_subs (distribution / collection)")
     return run.finish("other", META["text"], CHECKER,
                       rule="round trip: cases = rows read back and compared (a row is re-counted for each rank count and reader mode), distinct = "
                            "different written chains; cancellation: cases = chains enumerated (+ involution/listing checks), distinct = chains with at least one cancelled pair")
